@@ -684,17 +684,6 @@ Definition flushed (tr : list fev) (b : brec) : Prop :=
 Definition applied (tr : list fev) (s : rstate) (b : brec) : Prop :=
   In b (applied_batches s) \/ exists n, In b (log_batches tr n) /\ n < r_log s.
 
-(* literal form: b's entries are in the recovered tables *)
-Definition in_tables (s : rstate) (b : brec) : Prop :=
-  batch_covered (flat_map snd (r_tables s)) b = true.
-
-Fixpoint is_prefix {A} (eqb : A -> A -> bool) (a b : list A) : bool :=
-  match a, b with
-  | [], _ => true
-  | x :: a', y :: b' => eqb x y && is_prefix eqb a' b'
-  | _ :: _, [] => false
-  end.
-
 (* the replayed batches are, log by log in increasing order, a prefix of what
    was appended to that log; logs below log_number are not replayed *)
 Definition per_segment_prefix (tr : list fev) (s : rstate) : Prop :=
@@ -718,12 +707,3 @@ Definition lost_in (img : image) (n : N) (b : brec) : bool :=
       | Some s => negb (existsb (brec_eqb b) (applied_batches s)) && negb (n <? r_log s)
       end
   end.
-
-(* stages *)
-Definition is_rename (e : fev) : bool := match e with ERename _ _ => true | _ => false end.
-Definition edit_deletes (e : fev) : bool :=
-  match e with EAppend _ (PEdit ed) => match me_del ed with [] => false | _ => true end | _ => false end.
-(* Stage A: no table is ever replaced (flushes only) *)
-Definition stageA (tr : list fev) : bool := negb (existsb edit_deletes tr).
-(* no MANIFEST rollover after position i *)
-Definition no_rename_after (tr : list fev) (i : nat) : bool := negb (existsb is_rename (skipn i tr)).
